@@ -16,7 +16,7 @@ def run(ctx, prop, modules, witness=()):
     if not ctx.translate():
         return
     ok = ctx.prove(list(modules) + list(witness))
-    n = 1200 if ctx.thorough() else 160
+    n = 4000 if ctx.thorough() else 160
     res = fw.corr(ctx, "da", n)
     if res is not None:
         mine = set(ORACLES[prop] + ALWAYS)
